@@ -235,6 +235,14 @@ class AbsStr(AbstractValue):
             return Cond(('strtest', name, a, self.prov))
         if name in ('split', 'splitlines', 'rsplit'):
             return AbsSeq(('split', name, a, self.prov), elem=lambda i: AbsStr(prov=('part', i, name, a, self.prov)))
+        if name in ('partition', 'rpartition') and len(args) == 1 and isinstance(args[0], str) and not kwargs:
+            # (head, separator, tail): head and tail are what split(sep, 1) / rsplit(sep, 1) yield
+            sp = 'split' if name == 'partition' else 'rsplit'
+            a1 = (args[0], 1)
+            return (AbsStr(prov=('part', 0, sp, a1, self.prov)), AbsStr(prov=('m', name + '-sep', a, self.prov)),
+                    AbsStr(prov=('part', 1, sp, a1, self.prov)))
+        if name in ('find', 'rfind', 'count') and len(args) == 1 and isinstance(args[0], str) and not kwargs:
+            return Occurrence(self, args[0], name)
         if name in ('find', 'index', 'count', 'rfind'):
             return Unknown('int:%s' % name)
         if name == 'format':
@@ -358,6 +366,41 @@ def _freeze(x):
     if isinstance(x, RxVal):
         return ('rx', x.pattern)
     return x
+
+
+class Occurrence(AbstractValue):
+    """s.find(x) / s.rfind(x) / s.count(x) of an abstract string: tests of the result against "not found" are the
+    membership test `x in s` (and decide it the same way)."""
+
+    def __init__(self, subject, needle, how):
+        self.subject, self.needle, self.how = subject, needle, how
+        self.prov = ('occurrence', how, needle, subject.prov)
+
+    def _contains(self, interp):
+        return self.subject.abs_contains(interp, self.needle)
+
+    def abs_truth(self, interp):
+        if self.how == 'count':
+            return interp.truth(self._contains(interp))
+        return Unknown('find-result').abs_truth(interp)
+
+    def abs_compare(self, interp, op, other, reflected):
+        if not isinstance(other, int) or isinstance(other, bool):
+            return Unknown('cmp')
+        if reflected:
+            op = {ast.Lt: ast.Gt, ast.Gt: ast.Lt, ast.LtE: ast.GtE, ast.GtE: ast.LtE}.get(op, op)
+        found = None
+        if self.how in ('find', 'rfind'):
+            table = {(ast.NotEq, -1): True, (ast.Eq, -1): False, (ast.Gt, -1): True, (ast.GtE, 0): True,
+                     (ast.Lt, 0): False, (ast.LtE, -1): False}
+        else:
+            table = {(ast.NotEq, 0): True, (ast.Eq, 0): False, (ast.Gt, 0): True, (ast.GtE, 1): True,
+                     (ast.Lt, 1): False, (ast.LtE, 0): False}
+        found = table.get((op, other))
+        if found is None:
+            return Unknown('occurrence-cmp')
+        c = self._contains(interp)
+        return c if found else interp.negate(c)
 
 
 class AbsInt(AbstractValue):
